@@ -27,6 +27,52 @@ def payload_src(body, local, variant, field):
     return must_derive(body, local, is_src)
 
 
+def routed_through_and_then(prog, body, wlocal, gets, copy_blk):
+    """combinator form of the routing: `id2filename.get(&id).and_then(|name| export.get_mut(name))` -- the writer is the Some payload of an
+    and_then whose receiver is the id->name lookup and whose closure returns export.get_mut(<its parameter>) on the captured export map"""
+    at = []
+
+    def is_at(kind, obj, b3):
+        if kind == 'call' and obj.cmethod == 'and_then' and 'Option' in cnorm(obj):
+            at.append((b3, obj))
+            return True
+        return False
+    if not must_derive(body, wlocal, is_at) or len(at) != 1:
+        return False
+    b3, t = at[0]
+    if not body.dominates(b3, copy_blk.idx):
+        return False
+    # receiver = the id->name lookup
+    is_get = lambda k, ob, b4: k == 'call' and ob.cmethod == 'get' and any(b4 == g.idx for g in gets)
+    if t.args[0].place is None or not must_derive(body, t.args[0].place[0], is_get):
+        return False
+    # the closure
+    cl = None
+    caps = None
+    if t.args[1].place is not None:
+        for d in body.defs.get(t.args[1].place[0], []):
+            if d[2] == 'assign' and d[3].rv.r == 'aggregate' and d[3].rv.j.get('closure'):
+                cl = [c for c in prog.closures_of(body) if c.defpath == d[3].rv.j.get('closure')]
+                caps = d[3].rv.ops
+    if not cl or len(cl) != 1:
+        return False
+    c = cl[0]
+    gm = [b for b in c.calls() if b.term.cmethod == 'get_mut' and 'HashMap' in b.term.cdef]
+    if len(gm) != 1:
+        return False
+    g = gm[0]
+    if not must_derive(c, 0, lambda k, ob, b4: k == 'call' and b4 == g.idx):
+        return False
+    # key = the closure's parameter (the looked-up name), map = a captured variable that is the export parameter of linear_extract
+    ko = g.term.args[1]
+    if ko.place is None or not must_derive(c, ko.place[0], lambda k, ob, b4: k == 'param' and ob == 2):
+        return False
+    mo = origins(c, [g.term.args[0].place[0]], through_calls=False)
+    if 1 not in mo.params:
+        return False
+    return any(op.place is not None and 2 in origins(body, [op.place[0]], through_calls=False).params for op in (caps or []))
+
+
 def run(prog, rep, tier):
     le = one_body(prog, rep, 'R12', 'mla', exact='helpers::linear_extract')
     if le is None or le.kind == 'Closure':
@@ -128,6 +174,8 @@ def run(prog, rep, tier):
             okw = okw and ko.place is not None and must_derive(body, ko.place[0], is_get)
             # and the copy sits on the Some edge of get_mut
             okw = okw and body.dominates(b3, c.idx)
+        if not okw and wop.place is not None:
+            okw = routed_through_and_then(prog, body, wop.place[0], gets, c)
         rep.ob('R12.2', bool(okw), 'R12.2|%s|sink-is-export-of-looked-up-name' % body.nkey, 'routed copy writes to export.get_mut(name looked up by id)' if okw else
                'routed copy does not write to the writer registered for the looked-up name', body.loc(c.idx))
 
